@@ -23,6 +23,7 @@ import (
 
 type c07Conn struct {
 	id    int
+	nComp int // compressed messages sent to this connection so far
 	lc    *libConn
 	mode  c03Mode
 	alive bool // usable for reads
@@ -111,7 +112,15 @@ func (c *c07Conn) frames(payload []byte, compress bool, nfrag int, text bool) []
 	raw := payload
 	comp := compress && c.lc.Agreed.Deflate && !c.noComp
 	if comp {
-		raw = c.def.Message(payload, ref.DVSync)
+		// every third compressed message of a connection ends its DEFLATE stream with a final block
+		// (RFC 7692 section 7.2.3.4, what zlib-based senders emit): the receiver's flate reader stops before
+		// the end of the message, which is a path of its own through the pooling of readers
+		c.nComp++
+		v := ref.DVSync
+		if c.nComp%3 == 2 {
+			v = ref.DVBFinal
+		}
+		raw = c.def.Message(payload, v)
 		if c.lc.Agreed.SenderTakeover(!c.mode.Client) {
 			c.compHist += len(payload) // this connection's own LZ77 history grows
 		}
